@@ -1456,8 +1456,26 @@ bucket_pop(Bucket *self, PyObject *args)
     /* No default given.  The only difference in this case is the error
      * message, which depends on whether the bucket is empty.
      */
-    if (Bucket_length(self) == 0)
-        PyErr_SetString(PyExc_KeyError, "pop(): Bucket is empty");
+    {
+        /* Looking at the bucket may load it, i.e. run Python code, which
+        * must not happen while the KeyError is still set.
+        */
+        PyObject *et, *ev, *tb;
+        int len;
+
+        PyErr_Fetch(&et, &ev, &tb);
+        len = Bucket_length(self);
+        if (len > 0)
+            PyErr_Restore(et, ev, tb);
+        else
+        {
+            Py_XDECREF(et);
+            Py_XDECREF(ev);
+            Py_XDECREF(tb);
+            if (len == 0)
+                PyErr_SetString(PyExc_KeyError, "pop(): Bucket is empty");
+        }
+    }
     return NULL;
 }
 
